@@ -8,6 +8,11 @@ Ops
 * `init n m direct|engine` — `n` instruments, `m` assets; `direct`: a `TradingSummaryGenerator`
   taken from a fresh engine and updated with its own `update_from_*`; `engine`: events go through
   `Engine::process`, the summary is `Engine::trading_summary_generator(..).generate(..)`.
+* `initb n m direct|engine L<k> [a total free]…` — configuration-shape family: as `init`, with the
+  instrument layout `k ≤ 3` of the harness (how the `n` instruments are spread over exchanges and which assets
+  they share; only `n` and `m` matter here) and INITIAL balances handed to `EngineStateBuilder::balances`,
+  which applies each as a snapshot at `time_engine_start` (= `bal a 0 total free`) through
+  `AssetState::update_from_balance` before the engine (and the generator taken from it) exists.
 * `pos i pnl entry qty` — (direct) a `PositionExited` for instrument `i`.
 * `rt i B|S entry qty exit feeIn feeOut` — (engine) opening fill + exactly closing fill.
 * `bal a t total free` — balance snapshot for asset `a` at exchange time `t` ms.
@@ -45,6 +50,7 @@ def obs (s : TradingSummary) : List String :=
 
 inductive Op where
   | init (n m : Nat) (mode : Mode)
+  | initb (n m : Nat) (mode : Mode) (bals : List (Nat × Balance))
   | ev (e : Ev) (closed : Option (Nat × Closed)) (needs : Mode)
   /-- engine mode: a position is opened, FLIPPED by one opposite fill of twice its size (which closes it
   and opens the opposite position in the same step) and the remainder is closed at the same price: two
@@ -64,7 +70,24 @@ def flipClosed (i : Nat) (long : Bool) (entry qty exit feeIn feeOut : Rat) : Opt
     some (⟨a.pnlRealised, a.priceEntryAverage, a.quantityAbsMax⟩, ⟨b.pnlRealised, b.priceEntryAverage, b.quantityAbsMax⟩)
   | _, _ => none
 
+def parseBals : List String → Option (List (Nat × Balance))
+  | [] => some []
+  | a :: total :: free :: rest =>
+    match a.toNat?, parseRat? total, parseRat? free, parseBals rest with
+    | some a, some total, some free, some tl => some ((a, ⟨total, free⟩) :: tl)
+    | _, _, _, _ => none
+  | _ => none
+
+/-- the initial balances as the snapshots `EngineStateBuilder::build` applies (time = engine start) -/
+def initEvs (bals : List (Nat × Balance)) : List Ev := bals.map fun (a, b) => .balance a ⟨0, b⟩
+
 def parseOp : List String → Option Op
+  | "initb" :: n :: m :: mode :: layout :: rest =>
+    match n.toNat?, m.toNat?, (if mode == "direct" then some Mode.direct
+        else if mode == "engine" then some Mode.engine else none),
+        (if ["L0", "L1", "L2", "L3"].contains layout then some () else none), parseBals rest with
+    | some n, some m, some mode, some (), some bals => some (.initb n m mode bals)
+    | _, _, _, _, _ => none
   | ["init", n, m, mode] =>
     match n.toNat?, m.toNat?, (if mode == "direct" then some Mode.direct
         else if mode == "engine" then some Mode.engine else none) with
@@ -129,6 +152,13 @@ def model : Drv MSt where
     | some (.init n m .engine) =>
       let e := EngState.init n m
       (.engine n m e, obs (TradingSummaryGenerator.init e).generate)
+    | some (.initb n m mode bals) =>
+      -- an initial balance for an asset the state does not contain: `AssetStates::asset_mut` panics
+      if bals.any (fun (a, _) => decide (m ≤ a)) then (.none, ["panic"]) else
+      let e := (EngState.init n m).run (initEvs bals)
+      match mode with
+      | .direct => let g := TradingSummaryGenerator.init e; (.direct n m g, obs g.generate)
+      | .engine => (.engine n m e, obs (TradingSummaryGenerator.init e).generate)
     | some (.ev ev closed needs) =>
       match s with
       | .none => (s, ["bad-op"])
@@ -174,6 +204,11 @@ def spec : Drv SSt where
     | none => (s, ["bad-op"])
     | some (.init n m mode) =>
       let s' : SSt := ⟨true, mode, n, m, []⟩
+      (s', specObs s')
+    | some (.initb n m mode bals) =>
+      if bals.any (fun (a, _) => decide (m ≤ a)) then (⟨false, .direct, 0, 0, []⟩, ["panic"]) else
+      -- the initial balances are the first snapshots of their assets' histories
+      let s' : SSt := ⟨true, mode, n, m, initEvs bals⟩
       (s', specObs s')
     | some (.ev ev _ needs) =>
       if !s.started then (s, ["bad-op"]) else
